@@ -405,6 +405,105 @@ func suiteRecomposeDirected(tier string, seed uint64) *Report {
 			return ps.Unmarshal([]byte(sen.String(v, &o)), p)
 		})
 	}
-	rep.Rule = "directed round trips (reflect.DeepEqual): embedded structs whose tag names them, unsigned values beyond int64 in fields / slices / maps / pointers / arrays, whole floats held in any / map[string]any / []any; Decompose/Recompose under three naming plans and Marshal/Unmarshal through oj.Unmarshal, oj.Parser.Unmarshal, sen.Unmarshal, sen.Parser.Unmarshal"
+	// two distinct types with the same package path and name (declared inside functions), one after
+	// the other through the default recomposer: each round trip gives back its own value
+	for k := 0; k < 3; k++ {
+		for _, f := range []func(int) string{localTypeA, localTypeB, localTypeB, localTypeA} {
+			rep.Evaluations++
+			if out := safe(func() string { return f(k) }); out != "ok" {
+				rep.Add(Disagreement{Case: fmt.Sprintf("function-local types named DLocal, round %d", k), Where: "alt.Recompose / oj.Unmarshal (default recomposer)", Kind: "impl-law:same-name-local-types", Impl: out, Spec: "the value that was decomposed"})
+			}
+		}
+	}
+	// a type reachable from a registered type only through pointer elements ([]*T, map[string]*T, **T)
+	// is known to a create-key recomposer exactly as if it had been registered itself
+	for k := 0; k < 3; k++ {
+		rep.Evaluations++
+		src := &DReach{Ps: []*DLeafP{{N: k}}, Mp: map[string]*DLeafP{"m": {N: k + 1}}, Any: &DLeafP{N: k + 2}, List: []any{&DLeafP{N: k + 3}, "s"}}
+		run := func(regLeaf bool) string {
+			return safe(func() string {
+				reg := map[any]alt.RecomposeFunc{&DReach{}: nil}
+				if regLeaf {
+					reg[&DLeafP{}] = nil
+				}
+				rc := alt.MustNewRecomposer("^", reg)
+				d := alt.Decompose(src, &ojg.Options{CreateKey: "^"})
+				var out DReach
+				if _, err := rc.Recompose(d, &out); err != nil {
+					return "E " + err.Error()
+				}
+				return fmt.Sprintf("%s | Any:%T List0:%T", canonGo(out), out.Any, out.List[0])
+			})
+		}
+		if a, b := run(false), run(true); a != b {
+			rep.Add(Disagreement{Case: fmt.Sprintf("DReach round %d", k), Where: "Recomposer with only the outer type registered", Kind: "impl-law:registration-closure", Impl: a, Spec: b})
+		}
+	}
+	rep.Rule = "directed round trips (reflect.DeepEqual): embedded structs whose tag names them, unsigned values beyond int64 in fields / slices / maps / pointers / arrays, whole floats held in any / map[string]any / []any; Decompose/Recompose under three naming plans and Marshal/Unmarshal through oj.Unmarshal, oj.Parser.Unmarshal, sen.Unmarshal, sen.Parser.Unmarshal; two function-local types of one name through the default recomposer one after the other; a type reachable from a registered type only through pointer elements is recomposed under a create key as if it had been registered"
 	return rep
+}
+
+// DReach / DLeafP: DLeafP is reachable from DReach only through pointer elements
+type DLeafP struct{ N int }
+type DReach struct {
+	Ps   []*DLeafP
+	Mp   map[string]*DLeafP
+	Any  any
+	List []any
+}
+
+func localTypeA(k int) string {
+	type DLocal struct {
+		Sensor string
+		Value  int
+		Tags   []string
+	}
+	src := DLocal{Sensor: "s1", Value: 40 + k, Tags: []string{"a", "b"}}
+	var out DLocal
+	if _, err := alt.Recompose(alt.Decompose(&src), &out); err != nil {
+		return "recompose: " + err.Error()
+	}
+	if !reflect.DeepEqual(src, out) {
+		return fmt.Sprintf("recompose: %+v", out)
+	}
+	b, err := oj.Marshal(&src)
+	if err != nil {
+		return err.Error()
+	}
+	var out2 DLocal
+	if err = oj.Unmarshal(b, &out2); err != nil {
+		return "unmarshal: " + err.Error()
+	}
+	if !reflect.DeepEqual(src, out2) {
+		return fmt.Sprintf("unmarshal: %+v", out2)
+	}
+	return "ok"
+}
+
+func localTypeB(k int) string {
+	type DLocal struct {
+		Value  float64
+		Unit   string
+		Sensor string
+	}
+	src := DLocal{Value: 1.5 + float64(k), Unit: "mm", Sensor: "s2"}
+	var out DLocal
+	if _, err := alt.Recompose(alt.Decompose(&src), &out); err != nil {
+		return "recompose: " + err.Error()
+	}
+	if !reflect.DeepEqual(src, out) {
+		return fmt.Sprintf("recompose: %+v", out)
+	}
+	b, err := oj.Marshal(&src)
+	if err != nil {
+		return err.Error()
+	}
+	var out2 DLocal
+	if err = oj.Unmarshal(b, &out2); err != nil {
+		return "unmarshal: " + err.Error()
+	}
+	if !reflect.DeepEqual(src, out2) {
+		return fmt.Sprintf("unmarshal: %+v", out2)
+	}
+	return "ok"
 }
